@@ -6,6 +6,9 @@ from contracts.base import contract
 from contracts.lib import lexer_flags, parser_constant
 
 SKIP_WORDS = ["GO", "USE", "INSERT", "GRANT", "DELETE"]
+# which texts reach the statement parser decides every property that speaks about "every statement of a script":
+# independence (C03), layout / case (C05), comments (C08), shape of what is reported (C12), errors (C16), entity kinds (C18), columns (C01)
+LINE_PROPS = ["C03", "C01", "C05", "C08", "C12", "C16", "C18"]
 WORD_CHARS = "ABCDEFGHIJKLMNOPQRSTUVWXYZabcdefghijklmnopqrstuvwxyz0123456789_"
 
 
@@ -19,7 +22,7 @@ class SkipWords:
     """a line is skipped exactly when its first word is one of the non-DDL statement words (GO, USE, INSERT,
     GRANT, DELETE) in any letter case - a column called goal / user_id / deleted_at at the start of a line is code"""
     fn = "parser.Parser.check_line_on_skip_words"
-    props = ["C03", "C01", "C05", "C08", "C18"]
+    props = LINE_PROPS
     # the upper-case case keeps the obligation a pure regular-language question (decided both ways in milliseconds);
     # the any-case case adds case-insensitivity
     cases = {"any-line": dict(pat=r"[ -~]*", ex="goal int,"), "upper-case-line": dict(pat=r"[ -`{-~]*", ex="UPDATE T SET A = 1;")}
@@ -39,7 +42,7 @@ class NewStatementStart:
     """a line starts a new statement exactly when the statement collected so far is non-empty with balanced
     parentheses and the line begins with ALTER / CREATE / DROP / SET followed by a blank (any letter case)"""
     fn = "parser.Parser.check_new_statement_start"
-    props = ["C03", "C01", "C05", "C18"]
+    props = LINE_PROPS
     cases = {"any-line": dict(pat=r"[ -~]*"), "upper-case-line": dict(pat=r"[ -`{-~]*")}
 
     def build(G, case):
@@ -183,7 +186,7 @@ class LineMachine:
     """Summaries used for the two line predicates (each has its own contract above: SkipWords, NewStatementStart):
     uninterpreted functions of the line / of (statement so far, line)."""
     fn = "parser.Parser.process_line"
-    props = ["C03", "C05", "C08", "C18", "C01"]
+    props = LINE_PROPS
     abstract_callees = True
     stub_calls = {"parser.Parser.pre_process_line": "clean-line", "parser.Parser.process_set": "set-record",
                   "parser.Parser.set_default_flags_in_lexer": "reset-lexer", "parser.Parser.parse_statement": ("parse", ["statement"]),
@@ -236,7 +239,7 @@ class SetHandlerIdle:
     """with no SET statement pending, a line that does not begin with `SET ` (any letter case) leaves the SET handler's
     state untouched and produces no record"""
     fn = "parser.Parser.parse_set_statement"
-    props = ["C03", "C05", "C08", "C18", "C01"]
+    props = LINE_PROPS
     stub_calls = {"parser.Parser.process_set": "set-record"}
     cases = {"any line": dict(pat=r"[ -~]*"), "upper-case line": dict(pat=r"[ -`{-~]*")}
 
